@@ -19,7 +19,7 @@ import (
 func init() {
 	register("C03", func(c *Ctx) { runE2E(c, "C03") })
 	register("C01", func(c *Ctx) { runE2E(c, "C01"); runC01Race(c) })
-	register("C02", func(c *Ctx) { runE2E(c, "C02") })
+	register("C02", func(c *Ctx) { runE2E(c, "C02"); runC02Stage(c) })
 	register("C05", func(c *Ctx) { runE2E(c, "C05"); runC05Stage(c) })
 	register("C08", func(c *Ctx) { runE2E(c, "C08") })
 	register("C06", func(c *Ctx) { runCrashEnum(c, "C06") })
